@@ -308,6 +308,13 @@ func restoreFile(name string, backupFi fs.FileInfo, base, backup FS) (err error)
 		}
 	}
 
+	// a symlink that took the place of the file must not be written through,
+	// the copy would end up in (and overwrite) the link's target
+	err = removeIfSymlink(base, name)
+	if err != nil {
+		return err
+	}
+
 	// in case that the application dooes not hold any backup data in memory anymore
 	// we fallback to using the file permissions of the actual backed up file
 	if backupFi != nil {
@@ -357,6 +364,18 @@ func restoreSymlink(name string, backupFi fs.FileInfo, base, backup FS) (err err
 
 	// try to restore symlink
 	return copySymlink(backup, base, name, backupFi)
+}
+
+// removeIfSymlink removes name if (and only if) it is a symbolic link.
+func removeIfSymlink(fsys FS, name string) error {
+	fi, exists, err := lexists(fsys, name)
+	if err != nil {
+		return err
+	}
+	if exists && fi.Mode()&os.ModeSymlink != 0 {
+		return fsys.Remove(name)
+	}
+	return nil
 }
 
 // Check if a symlin, file or directory exists.
